@@ -155,7 +155,51 @@ class IdxEx(Extractor):
         return self.ctx.sym(name)
 
 
+def marker_shift_rules(prog, rep):
+    """The wall point is remembered as startInd / endInd (endInd = -2 while the contour still has a
+    temporary point beyond an upper wall).  Guard points added afterwards by
+    PsiContour.temporaryExtend must leave the markers on the same points: every prepended point
+    shifts non-negative markers up by one, every appended point shifts a negative endInd down by
+    one - per point, i.e. in the loop that adds the point."""
+    from ..stores import effects, Marker
+    f = prog.func(EQ, "PsiContour.temporaryExtend")
+    mod = f.module
+    effs = effects(f.node, inline=False)
+
+    def loop_of(e):
+        ms = [c for c in e.conds if isinstance(c, Marker)]
+        return str(ms[-1]) if ms else None
+
+    def shifts_in(loop, after_line):
+        out = set()
+        for e in effs:
+            if e.kind == "augstore" and loop_of(e) == loop and e.node.lineno > after_line and isinstance(e.value, ast.Constant) and e.value.value == 1:
+                cs = [mod.code(c) for c in e.conds if not isinstance(c, str)]
+                out.add((mod.code(e.target), type(e.node.op).__name__, cs[-1] if cs else ""))
+        return out
+
+    n = 0
+    for e in effs:
+        if e.kind != "call" or mod.code(e.value.func) not in ("self.prepend", "self.append"):
+            continue
+        n += 1
+        which = mod.code(e.value.func).split(".")[1]
+        lp = loop_of(e)
+        if lp is None:
+            rep.ob("R4", "temporaryExtend: %s of a guard point happens in a loop over the requested number of points" % which, False, f.site(e.node), "", key="markers/%s/loop" % which)
+            continue
+        got = shifts_in(lp, e.node.lineno)
+        if which == "prepend":
+            want = {("self.startInd", "Add", K("self.startInd >= 0")), ("self.endInd", "Add", K("self.endInd >= 0"))}
+        else:
+            want = {("self.endInd", "Sub", K("self.endInd < 0"))}
+        rep.ob("R4", "temporaryExtend: every %sed guard point shifts the start/end markers so that they stay on the same points (%s)" % (which, "non-negative markers +1" if which == "prepend" else "negative endInd -1"),
+               want <= got, f.site(e.node), "shifts found in the same loop after the %s: %s" % (which, sorted(got)), key="markers/%s/shift" % which)
+    rep.floor("R4.marker-shifts", n, 2)
+
+
 def r4(prog, rep):
+    marker_shift_rules(prog, rep)
     g = prog.func(MESH, "MeshRegion.addPointAtWallToContours")
     mod = g.module
     for end, var, setter in (("lower", "lower_intersect_index", "startInd"), ("upper", "upper_intersect_index", "endInd")):
